@@ -380,6 +380,9 @@ class Program:
                 self._index_module(mi)
         self.digest = h.hexdigest()[:16]
         import re as _re
+        from .facts import configure_status_synonyms
+
+        self.fold_log.extend(configure_status_synonyms([mi.tree for mi in self.modules.values()]))
 
         for ln in self.fold_log:
             m = _re.match(r'(\S+?):(\S+) folded into its \d+ use\(s\)(?: in \S+)? \(\w[\w-]* form\) — (?:kept as a unit|the definition stays)', ln)
